@@ -116,6 +116,60 @@ if exe:
                             'bytes': len(data), 'result': r.code(),
                             'stream_hex': data.hex() if len(data) < 400
                             else data[:200].hex() + '...'})
+    # ---- streams of DIFFERENT declared levels in one file: a block found by
+    # the scanner in a later stream may be decoded (and judged) before the
+    # parser has even reached that stream's header.  The verdict must be the
+    # sequential one: the block's own stream decides its size limit.
+    import bz2
+
+    def lowent(k):
+        return bytes(rng.choice(b'abcdefgh \n') for _ in range(k))
+    first1 = bz2.compress(lowent(250000), 1)            # three level-1 blocks
+    first9 = bz2.compress(lowent(60000), 9)
+    mid = lowent(150000)                                # fits level 2, not 1
+    ok12 = first1 + bz2.compress(mid, 2)
+    z2 = bytearray(bz2.compress(mid, 2))
+    z2[3] = 0x31                    # declares level 1, carries 150000 bytes
+    bad91 = first9 + bytes(z2)
+    mixed = [('mixed-level-1-then-2', ok12, bz2.decompress(ok12)),
+             ('mixed-level-9-then-overfull-1', bad91, None)]
+    try:
+        B.strict_decode(bad91)
+        ck.broken.append('oracle accepts the overfull level-1 block')
+    except B.Reject:
+        pass
+    mjobs, mmeta = [], []
+    for name, data, plain in mixed:
+        for k in range(8 if ck.quick else 40):
+            n = rng.choice([2, 2, 3, 4, 8])
+            env = {'LBZIP2_VERIF_CHECK': '1'}
+            if k % 4 != 3:       # hold the parser back at its first section
+                env['LBZIP2_VERIF_DELAY'] = 'parse:0:0=%d' % rng.choice([150, 300])
+            else:
+                env['LBZIP2_VERIF_PERTURB'] = str(rng.randrange(1, 10**6))
+            g = rng.choice([None, None, 65536, 262144])
+            if g:
+                env['LBZIP2_VERIF_IN_GRANUL'] = str(g)
+            mjobs.append(dict(exe=exe, args=['-d', '-n%d' % n], data=data,
+                              env=env, timeout=120))
+            mmeta.append((name, data, plain, n, env))
+    for (name, data, plain, n, env), r in zip(mmeta, proc.run_many(mjobs, workers=16)):
+        evals += 1
+        hist['mixed-levels'] = hist.get('mixed-levels', 0) + 1
+        good = (r.code() == 'exit0' and r.out == plain) if plain is not None \
+            else (r.code() == 'exit1' and r.err)
+        if good:
+            nontriv += 1
+            continue
+        ck.violation(
+            'concatenated streams of different levels: the run differs from '
+            'the sequential decoding (%s): %s, %d bytes, -n%d, env %s, stderr %r'
+            % ('expected the %d bytes of both streams' % len(plain)
+               if plain is not None else 'expected rejection: the second '
+               'stream declares level 1 and carries a 150000-byte block',
+               r.code(), len(r.out), n, env, r.err[:160]),
+            {'stream_hex': data.hex(), 'case': name, 'n': n, 'env': env,
+             'cmd': 'lbzip2 -d -n%d < stream' % n})
 ck.log('families:', hist, 'traces with speculative candidates:', discard_seen)
 ck.finish({
     'evaluations': evals, 'distinct_nontrivial': nontriv,
